@@ -1548,6 +1548,26 @@ def check_c14(inst, res, out, rec, view, sym, ret):
                            "without breaking capacity/release/precedence/deadline" % (got, T, o),
                            make_replay("maximal", inst, TASK=T, OPT=o, TM=tm))
                     break
+    # (iv) an offered, released task that schedule() kept out of the model (dropped / cancelled before the model was
+    # built) although it can still be added to the returned plan: goodput left on the table before optimisation starts
+    try:
+        offered_now = offered_tasks(inst, build_instance(inst))
+    except Exception:  # the frontier is an input here, not the function under check
+        offered_now = []
+    for T in offered_now:
+        if T in P or T not in view["tasks"] or view["tasks"][T]["state"] != "released":
+            continue
+        if ret_to_plan(ret).get(T) is not None:
+            continue
+        for o in c14_options(view, inst, [T], tm)[T][1:]:
+            p2 = dict(got)
+            p2[T] = o
+            if spec_feasible(view, p2, tm)[0]:
+                report("maximality", "offered_task_dropped_before_model", False,
+                       "returned plan %r omits the offered task %s, which schedule() kept out of its model, although it can be "
+                       "added at (worker,start,strategy)=%r without breaking capacity/release/precedence/deadline" % (got, T, o),
+                       make_replay("dropped", inst, TASK=T, OPT=o, TM=tm))
+                break
     # (iii) no over-tight row: every spec-feasible plan is a feasible point of the captured model
     cap = inst.get("check_limit", 400)
     todo = plans if len(plans) <= cap else (
@@ -1675,6 +1695,19 @@ print("instance", INST["key"], "back-end", INST["sched"]["kind"], INST["sched"].
 print("returned plan:", got)
 print("adding %s at (worker, slot, strategy) = %r is independently feasible: %s %s" % (TASK, OPT, ok, why))
 print("contract: no offered unplaced task can be added at any allowed slot/worker/strategy")
+sys.exit(1 if got.get(TASK) is None and ok else 0)
+''',
+    "dropped": '''
+view = make_view(INST)
+out = run_real(INST)
+got = {T: c for T, c in ret_to_plan(returned_plan(out["ctx"], out["placements"])).items() if c is not None}
+p2 = dict(got)
+p2[TASK] = OPT
+ok, why = spec_feasible(view, p2, TM)
+print("instance", INST["key"], "back-end", INST["sched"]["kind"], INST["sched"].get("kwargs"))
+print("returned placements:", got)
+print("adding the offered task %s at (worker, start, strategy) = %r is independently feasible: %s %s" % (TASK, OPT, ok, why))
+print("contract: no offered task that can still be added is left out of the plan")
 sys.exit(1 if got.get(TASK) is None and ok else 0)
 ''',
     "xcheck": '''
@@ -1945,11 +1978,25 @@ def gen_c12(tier, seed):
             fams.append(("released-late", [{"CPU": 1}],
                          [T("X", "G1", now + r + 1, now - 1, [(r, CPU1)]),
                           T("Y", "G2", now + 2 * r + 1, now, [(r, CPU1)])]))
-        for name, workers, tasks in fams:
+        # a non-source task offered on its own after its (only) parent has completed: the task graph is then offered
+        # without its source task, which is the situation in which the ILP keeps per-graph "may miss" bookkeeping
+        for tag, dl in [("r-1", now + r - 1), ("r", now + r), ("r+1", now + r + 1), ("r+2", now + r + 2)]:
+            if tier == "quick" and tag == "r+2":
+                continue
+            fams.append(("child-after-parent/%s" % tag, [{"CPU": 1}],
+                         [T("P", "G1", loose, 0, [(2, CPU1)], "completed", {"worker": 0, "strategy": 0, "start": max(0, now - 3)}),
+                          T("X", "G1", dl, now, [(r, CPU1)])], [("P", "X")]))
+        for fam in fams:
+            name, workers, tasks = fam[:3]
+            edges = fam[3] if len(fam) > 3 else []
             for kind, kw in [("ilp", {"enforce_deadlines": True}),
                              ("tetri_gurobi", {"enforce_deadlines": True, "plan_ahead": 12}),
                              ("tetri_cplex", {"enforce_deadlines": True, "plan_ahead": 12})]:
-                out.append(I("c12/v%d/%s" % (vi, name), now, workers, tasks, [], kind, kw))
+                if edges and kind == "tetri_cplex":
+                    continue        # the CPLEX formulation has no DAG support
+                out.append(I("c12/v%d/%s" % (vi, name), now, workers, tasks, edges, kind, kw))
+            if edges:
+                continue
             if tier != "quick" and vi < 4:
                 out.append(I("c12/v%d/%s" % (vi, name), now, workers, tasks, [], "tetri_gurobi",
                              {"enforce_deadlines": True, "plan_ahead": 12, "time_discretization": 2}))
@@ -1996,6 +2043,12 @@ def gen_c14(tier, seed):
                      [T("A", "G1", now + 8, 0, [(a, CPU1)]), T("B", "G1", now + 8, None, [(b, CPU1)], "virtual"),
                       T("C", "G2", now + 7, 0, [(c, CPU1)]), T("D", "G2", now + 9, None, [(2, CPU1)], "virtual")],
                      [("A", "B"), ("C", "D")], {"release_taskgraphs": True, "_dag": True}))
+        # a task released in the future (inside the lookahead) with zero slack: start == release is the only feasible start
+        fams.append(("future-release/zero-slack", [{"CPU": 1}],
+                     [T("X", "G1", now + 5, 0, [(4, CPU1)]), T("Y", "G2", now + 6 + b, now + 6, [(b, CPU1)])], [], {"lookahead": 10}))
+        # the deadline lies between the fastest and the slowest strategy: only the fast strategy is on time
+        fams.append(("twostrat/between", [{"CPU": 2}],
+                     [T("X", "G1", now + 5, 0, [(6, CPU1), (3, {"CPU": 2})]), T("Y", "G2", now + 10, 0, [(2, CPU1)])], [], {}))
         if tier != "quick":
             fams.append(("tight-lattice", [{"CPU": 1}],
                          [T("X", "G1", now + a - 1 + (vi % 3), 0, [(a, CPU1)]),
@@ -2054,9 +2107,9 @@ BOUNDS = {
            "release with lookahead, chain with release_taskgraphs; ILP, TetriSched-Gurobi, TetriSched-CPLEX, Z3; every "
            "feasible point + run-level clauses on the returned optimum",
     "C12": "deadline in {now-5, now, now+1, now+r-1, now+r, now+r+1, now+r+2, loose}, 1-2 tasks, 1-2 strategies, "
-           "contention, running blocker, two workers; ILP (task-by-task), TetriSched-Gurobi, TetriSched-CPLEX with "
+           "contention, running blocker, two workers, a child offered alone after its parent completed; ILP (task-by-task), TetriSched-Gurobi, TetriSched-CPLEX with "
            "enforce_deadlines; every feasible point + returned optimum",
-    "C14": "<=4 offered tasks, <=2 workers, <=2 strategies, horizon <=12 slots, discretisation 1-3, running tasks; all "
+    "C14": "<=4 offered tasks, <=2 workers, <=2 strategies, horizon <=12 slots, discretisation 1-3, running tasks, a future release inside the lookahead with zero slack, a deadline between the fastest and the slowest strategy; all "
            "plans of the planner's own decision space enumerated by brute force with an independent feasibility function",
 }
 GENS = {"C10": gen_c10, "C11": gen_c11, "C12": gen_c12, "C14": gen_c14}
